@@ -120,6 +120,21 @@ Fixpoint range_subtrees (fuel : nat) (ls : list hash) (i j : N) : list hash :=
   | S f => if i <? j then let s := next_subtree_size i j in mroot (slice ls i s) :: range_subtrees f ls (i + s) j else []
   end.
 
+(* RangeProofVerifier.ReadFrom: roots of the aligned subtrees of the leaves read, [lv] being the leaf hashes of
+   [off, off + |lv|); Verify: the three consume loops (the last one up to the leaf count of a sector) *)
+Fixpoint range_subtrees_off (fuel : nat) (lv : list hash) (off i j : N) : list hash :=
+  match fuel with
+  | O => []
+  | S f => if i <? j then let s := next_subtree_size i j in mroot (slice lv (i - off) s) :: range_subtrees_off f lv off (i + s) j else []
+  end.
+Definition rpv_verify (proof lv : list hash) (start end_ n : N) (root : hash) : bool :=
+  if negb (N.of_nat (length proof) =? range_proof_size n start end_) then false
+  else
+    let '(acc, proof) := insert_range FUEL [] proof 0 start in
+    let '(acc, _) := insert_range FUEL acc (range_subtrees_off FUEL lv start start end_) start end_ in
+    let '(acc, _) := insert_range FUEL acc proof end_ n in
+    hash_eqb (pa_root acc) root.
+
 (* VerifyAppendProof *)
 Fixpoint fill_trees (bits : nat) (k : N) (numLeaves : N) (ths : list hash) : pacc :=
   match bits with
